@@ -43,6 +43,24 @@ CHECKS = {
         note="key-shaped references are recognised structurally; imported (persisted) graphs legitimately reuse key names of what they hold results of",
         ref="§3 C09",
     ),
+    "C05": dict(
+        technique="property-based testing with a harness-owned scheduler (random, reversed and adversarial topological orders) and an argument-mutation monitor",
+        text="Generated programs; the optimized graph (fused and unfused) is executed by an own sequential executor in many dependency-respecting orders, each task seeing only its declared dependencies, with fingerprints of all task arguments, cached values and the user's pandas inputs before/after; real thread pools (1,2,4,16) and repeated computes are sampled on top. Bounded exploration.",
+        note="OS-level thread interleavings are only sampled; fused sub-tasks are observed through the unfused plan",
+        ref="§3 C05",
+    ),
+    "C16": dict(
+        technique="round-trip property-based testing across interpreters (pickle -> fresh process with empty caches) over generated programs x plan forms",
+        text="Generated programs in 4 forms are pickled, loaded by a fresh interpreter and must report the same name, schema, divisions, npartitions and computed result. Bounded exploration; one known finding (D35, name of imported graphs; root cause in dask's tokenizer).",
+        note="receivers import vlib.udfs; different forms of a program never share a receiver",
+        ref="§3 C16",
+    ),
+    "C17": dict(
+        technique="metamorphic property-based testing: cut-and-resume at every intermediate value x cut kind over generated programs",
+        text="Every generated program is cut at every intermediate value with persist / delayed / legacy round trips (5 kinds) and must give the same result, declared schema and divisions as the uncut query. Bounded exploration.",
+        note="cuts are only placed where later co-aligned operands stay on one side; from_delayed is called with verify_meta=False",
+        ref="§3 C17",
+    ),
     "C19": dict(
         technique="property-based testing of termination (pass-count bound), determinism and idempotence (metamorphic re-optimization) over generated programs",
         text="The fixed-point loops are driven pass by pass with a bound linear in plan size; plans must be identical across repetitions and rebuilds; re-optimized and further-built-on optimized collections must compute the unoptimized result. Bounded exploration; liveness decided as bounded work.",
